@@ -36,10 +36,13 @@ func typeReps() []typeRep {
 		{"list_float", aast.NewListType(aast.NewFloatType(sp), sp)},
 		{"list_bool", aast.NewListType(aast.NewBoolType(sp), sp)},
 		{"list_list_int", aast.NewListType(aast.NewListType(aast.NewIntType(sp), sp), sp)},
+		{"list_range", aast.NewListType(aast.NewRangeType(sp), sp)},
+		{"list_option_int", aast.NewListType(aast.NewOptionType(aast.NewIntType(sp), sp), sp)},
 		{"anyobj", aast.NewAnyObjectType(sp)},
 		{"obj", obj},
 		{"option_int", aast.NewOptionType(aast.NewIntType(sp), sp)},
 		{"option_str", aast.NewOptionType(aast.NewStringType(sp), sp)},
+		{"option_list_int", aast.NewOptionType(aast.NewListType(aast.NewIntType(sp), sp), sp)},
 	}
 }
 
@@ -68,6 +71,12 @@ func vmRep(name string) value.Value {
 		return *value.NewValueList([]*value.Value{value.NewValueBool(true)})
 	case "list_list_int":
 		return *value.NewValueList([]*value.Value{value.NewValueList([]*value.Value{i(1)})})
+	case "list_range":
+		return *value.NewValueList([]*value.Value{value.NewValueRange(*i(1), *i(3), false)})
+	case "list_option_int":
+		return *value.NewValueList([]*value.Value{value.NewValueOption(i(1)), value.NewNoneOption()})
+	case "option_list_int":
+		return *value.NewValueOption(value.NewValueList([]*value.Value{i(1)}))
 	case "anyobj":
 		return *value.NewValueAnyObject(map[string]*value.Value{"k": i(1)})
 	case "obj":
@@ -105,6 +114,12 @@ func treeRep(name string) ivalue.Value {
 		return *ivalue.NewValueList([]*ivalue.Value{ivalue.NewValueBool(true)})
 	case "list_list_int":
 		return *ivalue.NewValueList([]*ivalue.Value{ivalue.NewValueList([]*ivalue.Value{i(1)})})
+	case "list_range":
+		return *ivalue.NewValueList([]*ivalue.Value{ivalue.NewValueRange(*i(1), *i(3), false)})
+	case "list_option_int":
+		return *ivalue.NewValueList([]*ivalue.Value{ivalue.NewValueOption(i(1)), ivalue.NewNoneOption()})
+	case "option_list_int":
+		return *ivalue.NewValueOption(ivalue.NewValueList([]*ivalue.Value{i(1)}))
 	case "anyobj":
 		return *ivalue.NewValueAnyObject(map[string]*ivalue.Value{"k": i(1)})
 	case "obj":
@@ -199,6 +214,115 @@ func runtimeMembers(vm bool) []memberRow {
 	return rows
 }
 
+// gty renders an analyzer type as a term of the generated inductive `HmsGen.GTy` by walking
+// the type structurally (not through String()). Function and object types are opaque here:
+// the signature of a method is dumped as parameter list + result by typedRows.
+func gty(t aast.Type) string {
+	if t == nil {
+		return "(.other \"<nil>\")"
+	}
+	switch t.Kind() {
+	case aast.UnknownTypeKind:
+		return ".unknown"
+	case aast.NeverTypeKind:
+		return ".never"
+	case aast.AnyTypeKind:
+		return ".any"
+	case aast.NullTypeKind:
+		return ".null"
+	case aast.IntTypeKind:
+		return ".int"
+	case aast.FloatTypeKind:
+		return ".float"
+	case aast.BoolTypeKind:
+		return ".bool"
+	case aast.StringTypeKind:
+		return ".str"
+	case aast.RangeTypeKind:
+		return ".range"
+	case aast.AnyObjectTypeKind:
+		return ".anyobj"
+	case aast.ObjectTypeKind:
+		return ".obj"
+	case aast.FnTypeKind:
+		return ".fn"
+	case aast.ListTypeKind:
+		return "(.list " + gty(t.(aast.ListType).Inner) + ")"
+	case aast.OptionTypeKind:
+		return "(.opt " + gty(t.(aast.OptionType).Inner) + ")"
+	}
+	s := tryString(func() string { return t.String() })
+	if s == nil {
+		return "(.other \"<unprintable>\")"
+	}
+	return "(.other " + leanStr(*s) + ")"
+}
+
+type typedRow struct {
+	rep, member string
+	method      bool
+	params      []string
+	result      string
+}
+
+func typedRows() []typedRow {
+	rows := []typedRow{}
+	for _, rep := range typeReps() {
+		fields := rep.typ.Fields(errors.Span{})
+		names := []string{}
+		for n := range fields {
+			names = append(names, n)
+		}
+		sort.Strings(names)
+		for _, n := range names {
+			t := fields[n]
+			row := typedRow{rep: rep.name, member: n, params: []string{}, result: gty(t)}
+			if t.Kind() == aast.FnTypeKind {
+				ft := t.(aast.FunctionType)
+				row.method = true
+				row.result = gty(ft.ReturnType)
+				switch p := ft.Params.(type) {
+				case aast.NormalFunctionTypeParamKindIdentifier:
+					for _, prm := range p.Params {
+						row.params = append(row.params, gty(prm.Type))
+					}
+				default:
+					row.params = []string{"(.other \"<varargs>\")"}
+				}
+			}
+			rows = append(rows, row)
+		}
+	}
+	return rows
+}
+
+func dumpMembersTyped(b *strings.Builder) {
+	b.WriteString("/-- Analyzer types as far as member signatures need them (structural walk of `ast.Type`). -/\n")
+	b.WriteString("inductive GTy where\n  | unknown | never | any | null | int | float | bool | str | range | anyobj | obj | fn\n")
+	b.WriteString("  | list (inner : GTy) | opt (inner : GTy) | other (printed : String)\n  deriving DecidableEq, Repr, Inhabited\n\n")
+	b.WriteString("/-- The type of each representative. -/\ndef repTypes : List (String × GTy) := [\n")
+	reps := typeReps()
+	for i, r := range reps {
+		sep := ","
+		if i == len(reps)-1 {
+			sep = ""
+		}
+		fmt.Fprintf(b, "  (%s, %s)%s\n", leanStr(r.name), strings.TrimSuffix(strings.TrimPrefix(gty(r.typ), "("), ")"), sep)
+	}
+	b.WriteString("]\n\n")
+	b.WriteString("/-- Members the analyzer offers, structurally: (type representative, member, is a method, parameter types, result type (of the call, or of the field)). -/\n")
+	b.WriteString("def membersAnalyzerTyped : List (String × String × Bool × List GTy × GTy) := [\n")
+	rows := typedRows()
+	for i, r := range rows {
+		sep := ","
+		if i == len(rows)-1 {
+			sep = ""
+		}
+		fmt.Fprintf(b, "  (%s, %s, %v, [%s], %s)%s\n", leanStr(r.rep), leanStr(r.member), r.method, strings.Join(r.params, ", "), r.result, sep)
+	}
+	b.WriteString("]\n\n")
+}
+
 func dumpMembers(b *strings.Builder) {
 	b.WriteString("/-- Members the analyzer offers: (type representative, member, shape, arity (-1 = varargs), type as printed). -/\n")
 	b.WriteString("def membersAnalyzer : List (String × String × String × Int × String) := [\n")
@@ -229,4 +353,5 @@ func dumpMembers(b *strings.Builder) {
 		}
 		b.WriteString("]\n\n")
 	}
+	dumpMembersTyped(b)
 }
